@@ -31,6 +31,7 @@ import (
 	"github.com/slackhq/nebula/cert"
 	"github.com/slackhq/nebula/cert_test"
 	"github.com/slackhq/nebula/config"
+	"github.com/slackhq/nebula/overlay"
 	"github.com/slackhq/nebula/udp"
 	"golang.org/x/crypto/ssh"
 	"verifharness/hx"
@@ -112,70 +113,111 @@ func lifeSite(g lifeG) (string, bool) {
 	return "?", false
 }
 
-// class codes shared with model/Lifecycle.v
+// class codes shared with model/Lifecycle.v (order = order of the model's table)
 var lifeClasses = map[string]uint64{
-	".(*HandshakeManager).Run":                 1,
-	".(*Interface).emitStats":                  2,
-	".(*Punchy).Start.gowrap1":                 3,
-	".(*connectionManager).Start":              4,
-	".(*Interface).run.func1":                  5, // listenOut
-	".(*Interface).run.func2":                  6, // listenIn
-	".(*LightHouse).StartUpdateWorker.func1":   7,
-	"/firewall.(*ConntrackCacheTicker).tick":   8,
-	".(*dnsServer).Start":                      9,
-	"/sshd.(*SSHServer).Run":                   10,
-	".(*Control).Stop":                         11,
+	".(*HandshakeManager).Run":               1,
+	".(*Interface).emitStats":                2,
+	".(*Scheduler[...]).Run":                 3,
+	".(*LightHouse).startQueryWorker.func1":  12,
+	".(*connectionManager).Start":            4,
+	".(*Interface).run.func1":                5, // listenOut
+	".(*Interface).run.func2":                6, // listenIn
+	".(*LightHouse).StartUpdateWorker.func1": 7,
+	"/firewall.(*ConntrackCacheTicker).tick": 8,
+	".(*dnsServer).Start.func2":              13,
+	".(*dnsServer).Start":                    9,
+	"/sshd.(*SSHServer).Run.func1":           14,
+	".configSSH.func1":                       10,
 }
+var lifeOrder = []uint64{1, 2, 3, 12, 4, 5, 6, 7, 8, 13, 9, 14, 10}
 
 type lifeTracker struct {
-	known map[int]string // goroutine id -> site, for every goroutine ever seen that belongs to nebula
+	site  map[int]string // goroutine id -> creation site, for every goroutine ever seen that belongs to a node
+	owner map[int]int    // goroutine id -> node index (-1: could not be attributed)
 	base  map[int]bool   // goroutines that existed before the scenario
+	cur   int            // node whose Main / Start is running now (-1: none)
 }
 
 func lifeNewTracker() *lifeTracker {
-	t := &lifeTracker{known: map[int]string{}, base: map[int]bool{}}
+	t := &lifeTracker{site: map[int]string{}, owner: map[int]int{}, base: map[int]bool{}, cur: -1}
 	for _, g := range lifeSnapshot() {
 		t.base[g.id] = true
 	}
 	return t
 }
 
-// census returns the multiset of creation sites of the goroutines that belong to nebula nodes: a frame or creator
-// in the nebula module, or a (transitive) child of such a goroutine. Harness goroutines (package main) are skipped.
-func (t *lifeTracker) census() map[string]int {
+// scan attributes every new goroutine that belongs to a node (a frame or its creator in the nebula module, or a
+// transitive child of such a goroutine) to that node and returns the live ones. Harness goroutines are skipped.
+func (t *lifeTracker) scan() []int {
 	snap := lifeSnapshot()
-	res := map[string]int{}
-	for pass := 0; pass < 3; pass++ {
+	for pass := 0; pass < 4; pass++ {
 		for _, g := range snap {
 			if t.base[g.id] {
 				continue
 			}
-			if _, ok := t.known[g.id]; ok {
+			if _, ok := t.site[g.id]; ok {
 				continue
 			}
+			site, inMod := lifeSite(g)
 			harness := false
 			for _, f := range g.frames {
 				if strings.HasPrefix(f, "main.") {
 					harness = true
 				}
 			}
-			site, inMod := lifeSite(g)
-			if harness && !inMod {
+			if harness {
 				continue
 			}
-			if inMod {
-				t.known[g.id] = site
-			} else if ps, ok := t.known[g.parent]; ok {
-				t.known[g.id] = "child-of:" + ps + ":" + site
+			if po, ok := t.owner[g.parent]; ok {
+				if !inMod {
+					site = "child-of:" + t.site[g.parent] + ":" + site
+				}
+				t.site[g.id], t.owner[g.id] = site, po
+			} else if inMod {
+				t.site[g.id], t.owner[g.id] = site, t.cur
 			}
 		}
 	}
+	var live []int
 	for _, g := range snap {
-		if s, ok := t.known[g.id]; ok && !t.base[g.id] {
-			res[s]++
+		if _, ok := t.site[g.id]; ok && !t.base[g.id] {
+			live = append(live, g.id)
 		}
 	}
-	return res
+	return live
+}
+
+// settle waits until no goroutine is still sitting in its `go` statement wrapper, then returns the live ones.
+func (t *lifeTracker) settle() []int {
+	deadline := time.Now().Add(2 * time.Second)
+	for {
+		live := t.scan()
+		pendingStart := false
+		for _, id := range live {
+			if strings.Contains(t.site[id], ".gowrap") || strings.HasPrefix(t.site[id], "created-by:") {
+				pendingStart = true
+				delete(t.site, id) // look again once it runs
+				delete(t.owner, id)
+			}
+		}
+		if !pendingStart || time.Now().After(deadline) {
+			return t.scan()
+		}
+		time.Sleep(2 * time.Millisecond)
+	}
+}
+
+func (t *lifeTracker) census() (bySite map[string]int, perNode map[int]int, unknown int) {
+	bySite, perNode = map[string]int{}, map[int]int{}
+	for _, id := range t.settle() {
+		bySite[t.site[id]]++
+		if o := t.owner[id]; o >= 0 {
+			perNode[o]++
+		} else {
+			unknown++
+		}
+	}
+	return
 }
 
 // ---- nodes ------------------------------------------------------------------------------------------------------
@@ -216,6 +258,7 @@ type lifeNode struct {
 	cfg   lifeCfg
 	phase uint64 // 0 ready, 1 started, 2 stopped, 3 start failed
 	yaml  string
+	tun   *overlay.VerifLifeTun
 }
 
 func lifeSSHKey() string {
@@ -272,18 +315,15 @@ func lifeNewNode(ca *lifeCA, name string, vpn netip.Addr, cfg lifeCfg, lhVpn net
 	if cfg.sshd {
 		fmt.Fprintf(&sb, "sshd:\n  enabled: true\n  listen: %s\n  host_key: |\n%s\n", lifeFreePort(), lifeIndent(lifeSSHKey(), 4))
 	}
-	if cfg.failStart {
-		sb.WriteString("tun:\n  dev: verif-fail-activate\n")
-	}
 	c := config.NewC(l)
 	if err := c.LoadString(sb.String()); err != nil {
 		panic(err)
 	}
-	ctl, err := nebula.Main(c, false, "verif", l, nil)
+	ctl, err := nebula.Main(c, false, "verif", l, overlay.VerifLifeFactory(cfg.failStart))
 	if err != nil {
 		panic(fmt.Sprintf("Main(%s): %v\n%s", name, err, sb.String()))
 	}
-	return &lifeNode{name: name, ctl: ctl, conf: c, vpn: vpn, udp: udpAddr, cfg: cfg, yaml: sb.String()}
+	return &lifeNode{name: name, ctl: ctl, conf: c, vpn: vpn, udp: udpAddr, cfg: cfg, yaml: sb.String(), tun: ctl.Device().(*overlay.VerifLifeTun)}
 }
 
 // ---- a minimal router between the in-memory sockets --------------------------------------------------------------
@@ -303,6 +343,17 @@ func lifeNewRouter(nodes ...*lifeNode) *lifeRouter {
 	}
 	for _, n := range nodes {
 		n := n
+		r.wg.Add(1)
+		go func() { // whatever reaches a tun is consumed (and counted by the device)
+			defer r.wg.Done()
+			for {
+				select {
+				case <-r.stop:
+					return
+				case <-n.tun.Tx():
+				}
+			}
+		}()
 		r.wg.Add(1)
 		go func() {
 			defer r.wg.Done()
@@ -368,15 +419,12 @@ func lifeTunPacket(from, to netip.Addr) []byte {
 // waitTunnel injects inside packets at a until one comes out of b's tun.
 func lifeWaitTunnel(a, b *lifeNode, d time.Duration) bool {
 	deadline := time.Now().Add(d)
+	before := b.tun.Delivered()
 	for time.Now().Before(deadline) {
-		a.ctl.InjectTunPacket(lifeTunPacket(a.vpn, b.vpn))
-		t := time.After(100 * time.Millisecond)
-		select {
-		case p := <-b.ctl.GetTunTxChan():
-			if p != nil {
-				return true
-			}
-		case <-t:
+		a.tun.Send(lifeTunPacket(a.vpn, b.vpn))
+		time.Sleep(20 * time.Millisecond)
+		if b.tun.Delivered() > before {
+			return true
 		}
 	}
 	return false
@@ -397,40 +445,339 @@ func lifeDumpCensus(tag string, cs map[string]int) {
 	}
 }
 
+type lifeScenario struct {
+	tr    *lifeTracker
+	nodes []*lifeNode
+	r     *lifeRouter
+	cw    *hx.CaseWriter
+	fails *[]map[string]any
+	name  string
+	seq   int
+}
+
+func (sc *lifeScenario) add(ca *lifeCA, name string, vpn string, cfg lifeCfg, lh *lifeNode) *lifeNode {
+	sc.tr.cur = len(sc.nodes)
+	var lhVpn netip.Addr
+	var lhUdp netip.AddrPort
+	if lh != nil {
+		lhVpn, lhUdp = lh.vpn, lh.udp
+	}
+	n := lifeNewNode(ca, name, netip.MustParseAddr(vpn), cfg, lhVpn, lhUdp)
+	sc.nodes = append(sc.nodes, n)
+	sc.tr.settle()
+	sc.tr.cur = -1
+	return n
+}
+
+func (sc *lifeScenario) index(n *lifeNode) int {
+	for i, m := range sc.nodes {
+		if m == n {
+			return i
+		}
+	}
+	return -1
+}
+
+func (sc *lifeScenario) start(n *lifeNode) error {
+	sc.tr.cur = sc.index(n)
+	err := n.ctl.Start()
+	if err == nil {
+		n.phase = 1
+	} else {
+		n.phase = 3
+	}
+	time.Sleep(20 * time.Millisecond)
+	sc.tr.settle()
+	sc.tr.cur = -1
+	return err
+}
+
+func lifeModelCfg(n *lifeNode) string {
+	routines := 1
+	if n.phase == 1 {
+		routines = nebula.VerifLifeRoutines(n.ctl)
+	}
+	return lifeCfgLit(routines, !n.cfg.amLH, !n.cfg.amLH, n.cfg.ctCache || n.cfg.routines > 1, n.cfg.amLH && n.cfg.dns, n.cfg.sshd)
+}
+
+// emitCensus: what is running in the whole process, by creation site, against what the model expects for the nodes.
+func (sc *lifeScenario) emitCensus(tag string) {
+	bySite, _, unknown := sc.tr.census()
+	lifeDumpCensus(sc.name+": "+tag, bySite)
+	counts := map[uint64]uint64{}
+	var strange []string
+	for site, k := range bySite {
+		if code, ok := lifeClasses[site]; ok {
+			counts[code] += uint64(k)
+		} else {
+			unknown += k
+			strange = append(strange, fmt.Sprintf("%s x%d", site, k))
+		}
+	}
+	var obs []string
+	obsJ := map[string]uint64{}
+	for _, code := range lifeOrder {
+		if counts[code] > 0 {
+			obs = append(obs, hx.Tuple(hx.N(code), hx.N(counts[code])))
+			obsJ[fmt.Sprint(code)] = counts[code]
+		}
+	}
+	var nodes []string
+	var nodesJ []any
+	for _, n := range sc.nodes {
+		nodes = append(nodes, hx.Tuple(lifeModelCfg(n), hx.N(n.phase)))
+		nodesJ = append(nodesJ, map[string]any{"name": n.name, "phase": n.phase, "cfg": fmt.Sprintf("%+v", n.cfg)})
+	}
+	sort.Strings(strange)
+	sc.cw.Add(hx.App("Lifecycle_corr.CCensus", hx.List(nodes), hx.List(obs), hx.N(uint64(unknown))), "census-"+sc.name, true,
+		map[string]any{"scenario": sc.name, "at": tag, "nodes": nodesJ, "census": obsJ, "unknown": unknown, "unknown_sites": strange})
+}
+
+const lifeBoundMs = 5000
+
+// stop: Stop + Wait with the clock running, then the observations of the property.
+func (sc *lifeScenario) stop(n *lifeNode, tag string) {
+	before := n.phase
+	i := sc.index(n)
+	sc.tr.cur = i // the goroutine a fatal error would start, and nothing else, may appear now
+	t0 := time.Now()
+	stopped := make(chan struct{})
+	go func() { n.ctl.Stop(); close(stopped) }()
+	stopMs, waitMs := uint64(lifeBoundMs+1), uint64(lifeBoundMs+1)
+	select {
+	case <-stopped:
+		stopMs = uint64(time.Since(t0).Milliseconds())
+	case <-time.After(lifeBoundMs * time.Millisecond):
+	}
+	t1 := time.Now()
+	waited := make(chan struct{})
+	go func() { n.ctl.Wait(); close(waited) }()
+	select {
+	case <-waited:
+		waitMs = uint64(time.Since(t1).Milliseconds())
+	case <-time.After(lifeBoundMs * time.Millisecond):
+	}
+	n.phase = 2
+	// goroutines that wait for the context notice it on their own time: poll, bounded
+	leftover, unknown := 0, 0
+	deadline := time.Now().Add(3 * time.Second)
+	for {
+		_, perNode, unk := sc.tr.census()
+		leftover, unknown = perNode[i], unk
+		if leftover == 0 || time.Now().After(deadline) {
+			break
+		}
+		time.Sleep(5 * time.Millisecond)
+	}
+	sc.tr.cur = -1
+	st := int(n.ctl.State())
+	ctx, udpC, tunC := nebula.VerifLifeCtxDone(n.ctl), nebula.VerifLifeUDPClosed(n.ctl), nebula.VerifLifeTunClosed(n.ctl)
+	// a second Stop must be a no-op
+	n.ctl.Stop()
+	second := int(n.ctl.State()) == st && nebula.VerifLifeCtxDone(n.ctl) == ctx && nebula.VerifLifeUDPClosed(n.ctl) == udpC && nebula.VerifLifeTunClosed(n.ctl) == tunC
+	if err := n.ctl.Start(); err == nil {
+		second = false // a stopped node must not start again
+	}
+	var leftSites []string
+	if leftover > 0 {
+		for _, id := range sc.tr.scan() {
+			if sc.tr.owner[id] == i {
+				leftSites = append(leftSites, sc.tr.site[id])
+			}
+		}
+	}
+	sc.cw.Add(hx.App("Lifecycle_corr.CStop", lifeModelCfgAt(n, before), hx.N(before), hx.N(uint64(st)), hx.Bool(ctx), hx.Bool(udpC), hx.Bool(tunC),
+		hx.N(uint64(leftover)), hx.N(uint64(unknown)), hx.N(stopMs), hx.N(waitMs), hx.N(lifeBoundMs), hx.Bool(second)),
+		"stop-"+sc.name, true,
+		map[string]any{"scenario": sc.name, "at": tag, "node": n.name, "phase_before": before, "state": st, "ctx_cancelled": ctx, "udp_closed": udpC,
+			"tun_closed": tunC, "leftover_goroutines": leftover, "leftover_sites": leftSites, "stop_ms": stopMs, "wait_ms": waitMs, "second_stop_noop": second})
+}
+
+func lifeModelCfgAt(n *lifeNode, phase uint64) string {
+	routines := 1
+	return lifeCfgLit(routines, !n.cfg.amLH, !n.cfg.amLH, n.cfg.ctCache || n.cfg.routines > 1, n.cfg.amLH && n.cfg.dns, n.cfg.sshd)
+}
+
+func (sc *lifeScenario) finish() {
+	if sc.r != nil {
+		sc.r.close()
+	}
+	for _, n := range sc.nodes {
+		if n.phase == 0 || n.phase == 1 {
+			sc.stop(n, "cleanup")
+		}
+	}
+	sc.emitCensus("end")
+}
+
 func runLifecycleNet(c *hx.Ctx) {
 	ca := func() *lifeCA {
 		crt, _, key, pemB := cert_test.NewTestCaCert(cert.Version1, cert.Curve_CURVE25519, time.Now().Add(-time.Hour), time.Now().Add(24*365*time.Hour), nil, nil, []string{})
 		return &lifeCA{crt: crt, key: key, pem: string(pemB)}
 	}()
-	tr := lifeNewTracker()
-	lh := lifeNewNode(ca, "lh", netip.MustParseAddr("10.128.0.1"), lifeCfg{amLH: true, dns: true, sshd: true, ctCache: true, amRelay: true}, netip.Addr{}, netip.AddrPort{})
-	a := lifeNewNode(ca, "a", netip.MustParseAddr("10.128.0.2"), lifeCfg{lhUpdate: true, useRelay: true, routines: 2}, lh.vpn, lh.udp)
-	b := lifeNewNode(ca, "b", netip.MustParseAddr("10.128.0.3"), lifeCfg{lhUpdate: true, useRelay: true}, lh.vpn, lh.udp)
-	lifeDumpCensus("after Main x3", tr.census())
-	r := lifeNewRouter(lh, a, b)
-	for _, n := range []*lifeNode{lh, a, b} {
-		if err := n.ctl.Start(); err != nil {
-			panic(err)
-		}
-		n.phase = 1
-	}
-	time.Sleep(300 * time.Millisecond)
-	lifeDumpCensus("after Start x3", tr.census())
-	ok := lifeWaitTunnel(a, b, 5*time.Second)
-	fmt.Fprintln(os.Stderr, "tunnel a->b:", ok)
-	lifeDumpCensus("with tunnels", tr.census())
-	for _, n := range []*lifeNode{a, b, lh} {
-		t0 := time.Now()
-		n.ctl.Stop()
-		n.phase = 2
-		n.ctl.Wait()
-		fmt.Fprintln(os.Stderr, n.name, "stop+wait", time.Since(t0), nebula.VerifLifeCtxDone(n.ctl), nebula.VerifLifeUDPClosed(n.ctl), nebula.VerifLifeTunClosed(n.ctl))
+	cw := c.NewCaseWriter("From NV Require Import model.Lifecycle corr.Lifecycle_corr.", "Lifecycle_corr.case", "Lifecycle_corr.check_case", 40)
+	var fails []map[string]any
+	newSc := func(name string) *lifeScenario { return &lifeScenario{tr: lifeNewTracker(), cw: cw, fails: &fails, name: name} }
+	plain := lifeCfg{}
+
+	for rep := 0; rep < c.N; rep++ {
+		// 1. stop before start
+		sc := newSc("before-start")
+		a := sc.add(ca, "a", "10.128.0.2", plain, nil)
+		sc.emitCensus("after Main")
+		sc.stop(a, "never started")
+		sc.finish()
+
+		// 2. stop right after start, full configuration on a lighthouse
+		sc = newSc("after-start")
+		lh := sc.add(ca, "lh", "10.128.0.1", lifeCfg{amLH: true, dns: true, sshd: true, ctCache: true}, nil)
+		sc.emitCensus("after Main")
+		sc.start(lh)
+		sc.emitCensus("after Start")
+		sc.stop(lh, "idle")
+		sc.finish()
+
+		// 3. mid handshake: the stage-1 packet is out, nothing comes back
+		sc = newSc("mid-handshake")
+		a = sc.add(ca, "a", "10.128.0.2", plain, nil)
+		b := sc.add(ca, "b", "10.128.0.3", lifeCfg{routines: 2}, nil)
+		a.ctl.InjectLightHouseAddr(b.vpn, b.udp)
+		sc.r = lifeNewRouter(a, b)
+		sc.r.setHold(true)
+		sc.start(a)
+		sc.start(b)
+		a.tun.Send(lifeTunPacket(a.vpn, b.vpn))
+		time.Sleep(150 * time.Millisecond) // a retransmission or two
+		sc.emitCensus("handshake pending")
+		sc.stop(a, "handshake pending")
+		sc.emitCensus("a stopped")
+		sc.stop(b, "peer gone")
+		sc.finish()
+
+		// 4. live tunnel, traffic flowing
+		sc = newSc("live-tunnel")
+		a = sc.add(ca, "a", "10.128.0.2", lifeCfg{ctCache: true}, nil)
+		b = sc.add(ca, "b", "10.128.0.3", plain, nil)
+		a.ctl.InjectLightHouseAddr(b.vpn, b.udp)
+		b.ctl.InjectLightHouseAddr(a.vpn, a.udp)
+		sc.r = lifeNewRouter(a, b)
+		sc.start(a)
+		sc.start(b)
+		up := lifeWaitTunnel(a, b, 5*time.Second)
+		sc.emitCensus(fmt.Sprintf("tunnel up=%v", up))
+		traffic := make(chan struct{})
+		go func() { // keep packets coming from the peer while a stops
+			for {
+				select {
+				case <-traffic:
+					return
+				default:
+					b.tun.Send(lifeTunPacket(b.vpn, a.vpn))
+					time.Sleep(2 * time.Millisecond)
+				}
+			}
+		}()
+		sc.stop(a, "live tunnel under traffic")
+		close(traffic)
+		sc.emitCensus("a stopped")
+		sc.stop(b, "tunnel to a stopped peer")
+		sc.finish()
+
+		// 5. relayed tunnel: a reaches b only through r
+		sc = newSc("relayed-tunnel")
+		a = sc.add(ca, "a", "10.128.0.2", lifeCfg{useRelay: true}, nil)
+		rl := sc.add(ca, "r", "10.128.0.128", lifeCfg{amRelay: true}, nil)
+		b = sc.add(ca, "b", "10.128.0.3", lifeCfg{useRelay: true}, nil)
+		a.ctl.InjectLightHouseAddr(rl.vpn, rl.udp)
+		a.ctl.InjectRelays(b.vpn, []netip.Addr{rl.vpn})
+		rl.ctl.InjectLightHouseAddr(b.vpn, b.udp)
+		sc.r = lifeNewRouter(a, rl, b)
+		sc.start(a)
+		sc.start(rl)
+		sc.start(b)
+		up = lifeWaitTunnel(a, b, 6*time.Second)
+		sc.emitCensus(fmt.Sprintf("relayed tunnel up=%v", up))
+		sc.stop(rl, "relay carrying a tunnel")
+		sc.emitCensus("relay stopped")
+		sc.stop(a, "tunnel through a stopped relay")
+		sc.finish()
+
+		// 6. during config reloads
+		sc = newSc("during-reload")
+		lh = sc.add(ca, "lh", "10.128.0.1", lifeCfg{amLH: true, dns: true, sshd: true}, nil)
+		sc.start(lh)
+		reloading := make(chan struct{})
+		reloaded := make(chan struct{})
+		go func() {
+			defer close(reloaded)
+			for k := 0; ; k++ {
+				select {
+				case <-reloading:
+					return
+				default:
+				}
+				y := lh.yaml
+				if k%2 == 0 {
+					y = strings.Replace(y, "level: error", "level: warn", 1) + "\npunchy:\n  punch: true\n"
+				}
+				_ = lh.conf.ReloadConfigString(y)
+			}
+		}()
+		time.Sleep(20 * time.Millisecond)
+		sc.stop(lh, "reloads running")
+		time.Sleep(30 * time.Millisecond) // reloads keep coming after the stop
+		close(reloading)
+		<-reloaded
+		sc.emitCensus("stopped, reloads over")
+		sc.finish()
+
+		// 7. queued lighthouse work
+		sc = newSc("lighthouse-queue")
+		lh = sc.add(ca, "lh", "10.128.0.1", lifeCfg{amLH: true}, nil)
+		a = sc.add(ca, "a", "10.128.0.2", lifeCfg{lhUpdate: true}, lh)
+		sc.r = lifeNewRouter(lh, a)
+		sc.start(lh)
+		sc.start(a)
 		time.Sleep(100 * time.Millisecond)
-		lifeDumpCensus("after stop "+n.name, tr.census())
+		var many []netip.Addr
+		for k := 0; k < 200; k++ {
+			many = append(many, netip.AddrFrom4([4]byte{10, 128, 7, byte(k)}))
+		}
+		nebula.VerifLifeQueueLighthouse(a.ctl, many)
+		sc.emitCensus("queries queued")
+		sc.stop(a, "lighthouse queries queued")
+		sc.stop(lh, "lighthouse with a client gone")
+		sc.finish()
+
+		// 8. a Start whose device activation fails
+		sc = newSc("start-fails")
+		a = sc.add(ca, "a", "10.128.0.2", lifeCfg{failStart: true, ctCache: true}, nil)
+		err := sc.start(a)
+		sc.emitCensus(fmt.Sprintf("start failed=%v", err != nil))
+		sc.stop(a, "after failed start")
+		sc.finish()
+
+		// 9. random configurations
+		extra := 1
+		if c.Tier == "thorough" {
+			extra = 6
+		}
+		for k := 0; k < extra; k++ {
+			sc = newSc("random-config")
+			cfg := lifeCfg{amLH: c.Chance(0.4), sshd: c.Chance(0.4), ctCache: c.Chance(0.5), routines: 1 + c.Intn(3)}
+			cfg.dns = cfg.amLH && c.Chance(0.6)
+			n := sc.add(ca, "n", "10.128.0.9", cfg, nil)
+			sc.emitCensus("after Main")
+			if c.Chance(0.8) {
+				sc.start(n)
+				sc.emitCensus("after Start")
+			}
+			sc.stop(n, "random configuration")
+			sc.finish()
+		}
 	}
-	r.close()
-	time.Sleep(200 * time.Millisecond)
-	lifeDumpCensus("end", tr.census())
-	cw := c.NewCaseWriter("From NV Require Import corr.Lifecycle_corr.", "Lifecycle_corr.case", "Lifecycle_corr.check_case", 50)
-	cw.Close("exploration")
+	if len(fails) > 0 {
+		cw.Meta("failures", fails)
+	}
+	cw.Close("census of the goroutines of running nodes equal to the model's activity set for their phases, or a stop observed to release everything within the bound; all cases are nontrivial")
 }
